@@ -85,6 +85,8 @@ type streamOpts struct {
 	pesLenModes  bool // unbounded (0) PES_packet_length besides exact
 	minPackets   int
 	uniquePacket bool // make every packet of a PID distinguishable (payload never equal to its predecessor's)
+	emptyInUnit  bool // a PES unit may hold, after its first packet, a packet flagged with payload whose adaptation field leaves no payload byte (counter incremented as for any payload packet)
+	hugePES      bool // now and then a PES unit of 56..64 KiB (the sizes at which a growing buffer reaches a capacity of exactly 65536)
 	zeroPayload  bool // noise also includes packets flagged as carrying a payload whose adaptation field fills them entirely (a unit of zero bytes, on PID 0x1ffd): nothing may come of them
 	networkPID   bool // the PAT's programme 0 may name a PID of its own (not 0x10) that carries NIT sections, some before the first PAT; only for relational oracles: whether a demuxer follows network_PID is not fixed by the properties
 	relaxedSI    bool // units on the DVB SI PIDs (not PAT/PMT) may be cut anywhere: pointer_field alone in the first packet, a packet boundary exactly at the end of a non-last section
@@ -118,6 +120,13 @@ func drawPESUnit(t *rapid.T, pid uint16, cc *uint8, o streamOpts, label string) 
 		n = 0
 	}
 	p.Payload = gen.Bytes(t, n, label+"_pl")
+	if o.hugePES && gen.Chance(t, 1, label+"_huge") {
+		seed := rapid.IntRange(1, 250).Draw(t, label+"_hugeseed")
+		p.Payload = make([]byte, rapid.IntRange(56000, 65700).Draw(t, label+"_hugelen"))
+		for i := range p.Payload {
+			p.Payload[i] = byte(i*seed + i>>8)
+		}
+	}
 	if o.pesLenModes && gen.Chance(t, 35, label+"_len0") {
 		p.Length = 0
 	}
@@ -142,6 +151,15 @@ func drawPESUnit(t *rapid.T, pid uint16, cc *uint8, o streamOpts, label string) 
 	}
 	po.Prio = gen.Chance(t, 10, label+"_prio")
 	u.packets = ref.PacketizeUnit(pid, u.payload, cc, po)
+	if o.emptyInUnit && len(u.packets) >= 2 && gen.Chance(t, 25, label+"_empty") {
+		k := 1 + gen.Uniform(t, len(u.packets)-1, label+"_emptyat")
+		e := &ref.TSPacket{PID: pid, CC: u.packets[k].CC, HasAF: true, AF: &ref.AF{Stuffing: 182}, HasPayload: true, Prio: po.Prio}
+		for _, q := range u.packets[k:] {
+			q.CC = (q.CC + 1) & 0xf
+		}
+		*cc = (*cc + 1) & 0xf
+		u.packets = append(u.packets[:k:k], append([]*ref.TSPacket{e}, u.packets[k:]...)...)
+	}
 	fp := conv.PacketStruct(u.packets[0], true)
 	fp.Payload = nil
 	d := conv.PESStruct(p, true, p.Payload, uint16(p.EncodedLength()))
@@ -243,6 +261,9 @@ func drawStream(t *rapid.T, o streamOpts) *streamModel {
 		return ccs[pid]
 	}
 	used := map[uint16]bool{}
+	if o.zeroPayload {
+		used[0x1ffd] = true // kept for the noise packets without payload bytes
+	}
 	var usedList []uint16
 	drawPID := func(label string) uint16 {
 		if len(usedList) > 0 && gen.Chance(t, 15, label+"_alias") {
